@@ -364,6 +364,7 @@ func (m *monC03) AfterBlock(w *World) {
 }
 
 func (m *monC03) AfterEnd(w *World, _ abci.ResponseEndBlock) {
+	govExecutedMustFail(w, "C03", c03Rules)
 	// parameter changes (gov) land here; compare again so that a change that rewrites orders is seen
 	m.compare(w, w.DCtx(), "end")
 }
